@@ -139,9 +139,24 @@ def build_case(c, base, foreign_base):
     choose_targets(rng, tree, foreign)
     if c.get("focus_xdev") and foreign:
         # a skipped directory on the other device, somewhere among siblings
-        tree["kids"][c["filter_names"][0]] = dict(kind="l", target=foreign + "/fd")
-        if rng.random() < 0.5:
-            tree["kids"][".x"] = dict(kind="l", target=foreign)
+        # ... in the root directory or one level down, skipped by the filter, by `hidden`, or by an ignore rule
+        host = tree
+        subs = [k for k in tree["kids"].values() if k["kind"] == "d"]
+        if subs and rng.random() < 0.4:
+            host = rng.choice(subs)
+        how = rng.choice(["filter", "ignore", "ignore", "hidden"])
+        lname = c["filter_names"][0] if how == "filter" else ("xd" if how == "ignore" else ".x")
+        host["kids"][lname] = dict(kind="l", target=foreign + "/fd")
+        if how == "hidden" and not c["hidden"]:
+            host["ignore"] = host["ignore"] + [(".x", False)]
+        if how == "ignore":
+            host["ignore"] = host["ignore"] + [("xd", rng.random() < 0.5)]
+        # the same directory's ignore file also hides some of the link's siblings
+        sibs = [n for n in host["kids"] if n != lname]
+        for n in rng.sample(sibs, min(len(sibs), rng.randint(1, 3))):
+            host["ignore"] = host["ignore"] + [(n, False)]
+        if rng.random() < 0.4:
+            tree["kids"][".x2"] = dict(kind="l", target=foreign)
     os.makedirs(base)
     materialise(os.path.join(base, "t"), tree)
     # roots: the tree itself, or things inside it (a file, a link, a sub-directory)
@@ -320,7 +335,9 @@ def split_outs(v):
             continue
         k = o[0]
         s = lambda b: b.decode("utf-8", "surrogateescape") if isinstance(b, bytes) else ""
-        if k == 0:
+        if k == 5:
+            other.append("panic")
+        elif k == 0:
             ents.append((s(o[1]), o[2], o[3], o[4]))
         elif k == 1:
             loops.append(s(o[1]))
@@ -370,7 +387,11 @@ def check_cases(ctx, cases, base0, foreign0, stats):
                 stats[label] = stats.get(label, 0) + 1
     for (c, base, ora), ml, hl, m, h in zip(metas, mlines, hlines, mo, co):
         rep = dict(kind=601, case=c, model_line=ml)
-        if h in ("PANIC", "MISSING") or h.startswith("PARSEFAIL") or m.startswith(("MISSING", "STACK", "PARSEFAIL")):
+        if h == "PANIC":
+            # the tree and options are the failing input
+            ctx.violation("a walker panicked on this tree (roots %r)" % (c["roots"],), dict(rep, oracle=ora))
+            continue
+        if h == "MISSING" or h.startswith("PARSEFAIL") or m.startswith(("MISSING", "STACK", "PARSEFAIL")):
             ctx.violation("walker run failed: model=%s code=%s" % (m[:40], h[:40]), rep, nfi=True)
             continue
         hv = parse_val(h)
@@ -415,6 +436,10 @@ def check_cases(ctx, cases, base0, foreign0, stats):
             ctx.sample(dict(roots=c["roots"], cfg={k: c[k] for k in ("max_depth", "max_filesize", "follow", "same_fs", "has_filter", "filter_names", "hidden", "threads")},
                             entries=[e[0] for e in ser[0]], loops=ser[1]))
         pd = lambda t: [(e[0], e[1]) for e in t[0]]
+        if "panic" in ser[3]:
+            ctx.violation("the single-threaded walker panicked after yielding %d entries; extra=%r missing=%r"
+                          % (len(ser[0]), sorted(set(pd(ser)) - set(ora[0]))[:5], sorted(set(ora[0]) - set(pd(ser)))[:5]),
+                          dict(rep, serial=ser, parallel=par, oracle=ora))
         # the property: serial = parallel = reachable set, each once; loops reported
         if pd(ser) != pd(par) or ser[1] != par[1]:
             ctx.violation("serial and parallel walkers report different entries: only-serial=%r only-parallel=%r loops %r / %r"
@@ -432,7 +457,7 @@ def check_cases(ctx, cases, base0, foreign0, stats):
                           dict(rep, parallel=par, oracle=ora))
         # correspondence: models vs code, all observables (type, symlink flag, error kinds)
         prop_ok = pd(ser) == ora[0] and pd(par) == ora[0]
-        if mser[:3] != ser[:3] or ser[3]:
+        if mser[:3] != ser[:3] or [x for x in ser[3] if x != "panic"]:       # a panic is reported above, with its input
             ctx.violation("serial model and WalkBuilder::build() disagree: %r vs %r" % (diff3(mser, ser)), dict(rep, model=mser, code=ser),
                           nfi=prop_ok)
         # the parallel root entry of a symlinked root reports the target's type; compare modulo nothing else
